@@ -136,7 +136,7 @@ class Contract:
     def lemma(self, name, fn, props=None):
         self.lemmas_.append((name, fn, props))
 
-    def induction(self, name, build, props=None):
+    def induction(self, name, build, props=None, using=None):
         """lemma P(n) by induction on n >= 0: build(env, n) -> P(n) (free constants stand for the other variables).
         Two closed obligations: name/base = P(0), name/step = (n >= 0 and P(n)) => P(n+1); the fold definitions
         mentioned are hypotheses of both"""
@@ -145,14 +145,16 @@ class Contract:
         def base():
             env = S_.LemmaEnv()
             p = build(env, z3.IntVal(0))
-            return z3.Implies(z3.And(*env.facts()) if env.facts() else z3.BoolVal(True), p)
+            extra = list(using(env, z3.IntVal(0))) if using is not None else []   # instances of lemmas proved elsewhere
+            return z3.Implies(z3.And(z3.BoolVal(True), *(extra + env.facts())), p)
 
         def step():
             env = S_.LemmaEnv()
             n = z3.Int('n!ind')
             hyp = build(env, n)
             concl = build(env, n + 1)
-            return z3.Implies(z3.And(n >= 0, hyp, *env.facts()), concl)
+            extra = list(using(env, n)) if using is not None else []
+            return z3.Implies(z3.And(n >= 0, hyp, *(extra + env.facts())), concl)
         self.lemmas_.append((name + '/base', base, props))
         self.lemmas_.append((name + '/step', step, props))
 
